@@ -148,3 +148,34 @@ Fixpoint ref_session_wire (tcp : bool) (k : N) (cs : list (N * call)) : list (li
       then (if tcp then ref_encode_tcp (k mod 65536) uid c else ref_encode_rtu uid c) :: ref_session_wire tcp (k + 1) rest
       else ref_session_wire tcp (if reaches_task c then k + 1 else k) rest
   end.
+
+(* ------------------------------------------------------------------ C03: the complete byte stream of a connection *)
+(* What happens to the connection while a call is being executed: the request is transmitted and
+   the call runs to completion (reply, exception, bad reply or response timeout - whatever the peer
+   sends meanwhile: stale or foreign frames, duplicates, partial replies, nothing); or the
+   transport takes only the first j bytes of the frame before the request's timeout expires; or
+   the connection is lost (I/O error, framing error) while the call waits for its reply. *)
+Record call_fate := { cut_after : option nat;     (* Some j: the transport takes at most j bytes of the frame in time *)
+                      connection_lost : bool }. (* the connection is lost while the call waits for its reply *)
+Definition FateDone : call_fate := {| cut_after := None; connection_lost := false |}.
+Definition FateCut (j : nat) : call_fate := {| cut_after := Some j; connection_lost := false |}.
+Definition FateLost : call_fate := {| cut_after := None; connection_lost := true |}.
+
+(* Everything the client writes on ONE connection, as one byte stream: the encodings of the calls
+   within the limits, each exactly once, in order, nothing else - "or nothing" for every other
+   call. A frame that the transport did not take completely within the request's timeout appears
+   as a PREFIX of its encoding and is the last thing on the connection (the client closes it: the
+   stream is unusable); nothing follows a lost connection either. *)
+Fixpoint ref_session_stream (tcp : bool) (k : N) (cs : list (N * call * call_fate)) : list N :=
+  match cs with
+  | [] => []
+  | (uid, c, fate) :: rest =>
+      if within_limits_b c then
+        let e := if tcp then ref_encode_tcp (k mod 65536) uid c else ref_encode_rtu uid c in
+        let whole := e ++ (if connection_lost fate then [] else ref_session_stream tcp (k + 1) rest) in
+        match cut_after fate with
+        | Some j => if Nat.ltb j (length e) then firstn j e else whole
+        | None => whole
+        end
+      else ref_session_stream tcp (if reaches_task c then k + 1 else k) rest
+  end.
